@@ -67,6 +67,26 @@ def builders_pure(ctx, rid, E=None):
                  "%s can return its operand itself (%s): in-place arithmetic on the result modifies the input" % (name, alias))
 
 
+def no_collapsing_dictcomp(ctx, rid, fns=None):
+    """A dict display / comprehension whose keys are canonicalised (squash_key, sorted, set) as it is built keeps only the
+    last of the entries that collapse onto one key: terms of an operand that denote one monomial ((x, y) and (y, x)) must be
+    summed - which the model constructors do when they are handed the raw dict."""
+    P = ctx.prog
+    if fns is None:
+        fns = {b: P.func('_satisfiability.%s' % b) for b in BUILDERS}
+    for name, fn in fns.items():
+        bad = []
+        for n in ast.walk(fn.node):
+            if isinstance(n, ast.DictComp):
+                k = n.key
+                if any(isinstance(c, ast.Call) and (call_name(c) in ('squash_key', 'sorted', 'set', 'frozenset')) for c in ast.walk(k)):
+                    bad.append(n)
+        ctx.inst(rid, fn, bad[0] if bad else 'dict displays of %s' % name, not bad,
+                 "no dict is built under canonicalised keys" if not bad else
+                 "`%s` builds a dict under canonicalised keys: entries that collapse onto one key overwrite each other instead of "
+                 "being summed, so an operand written with both key orders loses part of its coefficients" % src(bad[0])[:70])
+
+
 def operand_discipline(ctx, rid_types, rid_tuple, fns=None):
     """Operands of the sat builders are told apart only as model versus label, and the operand tuple is used as given
     (also a premise of the constraint methods that build penalties with AND / OR / NOT ...)."""
@@ -97,6 +117,13 @@ def operand_discipline(ctx, rid_types, rid_tuple, fns=None):
         reb = [n for n in ast.walk(fn.node) if isinstance(n, (ast.Assign, ast.AugAssign, ast.AnnAssign)) and any(
             isinstance(x, ast.Name) and x.id == va and isinstance(x.ctx, ast.Store)
             for t in (n.targets if isinstance(n, ast.Assign) else [n.target]) for x in ast.walk(t))]
+        # a return that is nothing but the gate of a strict part of the operands leaves the other operands out
+        from ..astutil import expand_names as _xn
+        for r_ in [n for n in ast.walk(fn.node) if isinstance(n, ast.Return) and n.value is not None]:
+            v_ = _xn(fn.node, r_.value)
+            if isinstance(v_, ast.Call) and isinstance(v_.func, ast.Name) and len(v_.args) == 1 and isinstance(v_.args[0], ast.Starred) \
+                    and isinstance(v_.args[0].value, ast.Subscript) and is_name(v_.args[0].value.value, va) and isinstance(v_.args[0].value.slice, ast.Slice):
+                reb = reb + [r_]
         ctx.inst(rid_tuple, fn, reb[0] if reb else 'operands of %s' % name, not reb,
                  "the operands are used as given" if not reb else
                  "`%s` replaces the operand tuple: operands that are dropped (e.g. identically-zero models) or unpacked (a tuple "
@@ -209,6 +236,7 @@ def rules(ctx):
     ctx.rule('R07.7', "operands are told apart only as model (dict) versus label: any hashable, tuples included, is a label", floor=8)
     ctx.rule('R07.8', "every operand given takes part: the operand tuple is not replaced by a filtered / unpacked / reordered one", floor=6)
     operand_discipline(ctx, 'R07.7', 'R07.8', fns)
+    no_collapsing_dictcomp(ctx, 'R07.5', fns)
     ctx.rule('R07.6', "no function reachable from a builder reads the display metadata `name` of an operand", floor=8)
     no_metadata_reads(ctx, 'R07.6', [(fn, None) for fn in fns.values()])
 
